@@ -103,7 +103,7 @@ FIELDS = {
     'Sequence': {'subcons': SubList(), '_subcons': Opaque()},
     'Array': {'subcon': Sub(), 'count': Param('int'), 'discard': Bool()},
     'GreedyRange': {'subcon': Sub(), 'discard': Bool()},
-    'RepeatUntil': {'subcon': Sub(), 'predicate': Param('dyn'), 'discard': Bool()},
+    'RepeatUntil': {'subcon': Sub(), 'predicate': Param('predicate3'), 'discard': Bool()},
     'Renamed': {'subcon': Sub()},
     'Const': {'subcon': Sub(), 'value': Dyn()},
     'Computed': {'func': Param('dyn')},
